@@ -394,13 +394,21 @@ Proof.
   { intros sl Hin. rewrite forallb_forall in Hobs. specialize (Hobs sl Hin).
     apply andb_true_iff in Hobs. exact Hobs. }
   clear Hobs. unfold satisfies_step. unfold run_step in Run.
-  destruct (s_mode s =? 0) eqn:M0; [eapply step_judge0; eauto|].
-  destruct (s_mode s =? 3) eqn:M3; [reflexivity|].
-  cbn [orb] in Hmode. apply negb_true_iff in Hmode. rewrite Hmode in Run.
-  destruct (is_reapply (s_kind s)); [|discriminate Run].
-  assert (E1 : st1 = st) by congruence. subst st1.
-  apply forallb_forall. intros sl Hin. destruct (Ho sl Hin) as [Hb Ha].
-  rewrite (obs_ok_via _ _ _ _ Ha Hb). apply orb_true_r.
+  destruct (s_mode s =? 0) eqn:M0.
+  - cbn [orb] in *. apply N.eqb_eq in M0. unfold eff_trust in Run. rewrite M0 in Run. cbn in Run.
+    eapply step_judge0; eauto.
+  - cbn [orb] in *. destruct (window_mode (s_mode s)) eqn:W.
+    + assert (M3 : (s_mode s =? 3) = false).
+      { unfold window_mode in W. destruct (N.eqb_spec (s_mode s) 3) as [E|]; [rewrite E in W; discriminate W|reflexivity]. }
+      rewrite M3 in Hmode. cbn [orb] in Hmode. apply negb_true_iff in Hmode.
+      unfold eff_trust in Run. rewrite W, Hmode in Run. cbn [andb] in Run.
+      eapply step_judge0; eauto.
+    + destruct (s_mode s =? 3) eqn:M3; [reflexivity|].
+      cbn [orb] in Hmode. apply negb_true_iff in Hmode. rewrite Hmode in Run.
+      destruct (is_reapply (s_kind s)); [|discriminate Run].
+      assert (E1 : st1 = st) by congruence. subst st1.
+      apply forallb_forall. intros sl Hin. destruct (Ho sl Hin) as [Hb Ha].
+      rewrite (obs_ok_via _ _ _ _ Ha Hb). apply orb_true_r.
 Qed.
 
 Theorem link_proved (t : gtrace V) :
@@ -419,24 +427,27 @@ Proof. intros E1 E2 M. unfold reapplier_accepts. rewrite M, E1, E2. destruct (m 
 
 Lemma gclean_off (t : gtrace V) :
   c05_update_inherits_isnew = false -> c05_refused_plog_marks_stored = false -> c05_failed_plog_marks_stored = false ->
+  c05_reapply_wlog_raises_level = false ->
   gclean t = true.
 Proof.
-  intros E E1 E2. unfold gclean, clean_step. apply forallb_forall. intros s _. apply andb_true_iff. split.
+  intros E E1 E2 E3. unfold gclean, clean_step. apply forallb_forall. intros s _. apply andb_true_iff. split.
   - apply forallb_forall. intros sl _. rewrite (stale_new_off _ E). reflexivity.
-  - destruct (s_mode s =? 0) eqn:M; [reflexivity|]. rewrite (accepts_off _ E1 E2 M). apply orb_true_r.
+  - destruct (s_mode s =? 0) eqn:M; [reflexivity|]. rewrite (accepts_off _ E1 E2 M), E3.
+    destruct (window_mode (s_mode s)); apply orb_true_r.
 Qed.
 
 (* with the first two marks off (the code as it is), the only unclean steps are re-applies of an event whose
    PutPlog failed with a storage error *)
 Lemma gclean_but_failed (t : gtrace V) :
-  c05_update_inherits_isnew = false -> c05_refused_plog_marks_stored = false -> no_failed_reapply t = true ->
+  c05_update_inherits_isnew = false -> c05_refused_plog_marks_stored = false ->
+  c05_reapply_wlog_raises_level = false -> no_failed_reapply t = true ->
   gclean t = true.
 Proof.
-  intros E E1 NF. unfold gclean, clean_step, no_failed_reapply in *. apply forallb_forall. intros s Hin.
+  intros E E1 E3 NF. unfold gclean, clean_step, no_failed_reapply in *. apply forallb_forall. intros s Hin.
   rewrite forallb_forall in NF. specialize (NF s Hin). apply negb_true_iff in NF. apply andb_true_iff. split.
   - apply forallb_forall. intros sl _. rewrite (stale_new_off _ E). reflexivity.
-  - destruct (s_mode s =? 0) eqn:M; [reflexivity|]. unfold reapplier_accepts. rewrite M, NF, E1.
-    destruct (s_mode s =? 1); cbn; apply orb_true_r.
+  - destruct (s_mode s =? 0) eqn:M; [reflexivity|]. unfold reapplier_accepts. rewrite M, NF, E1, E3.
+    destruct (window_mode (s_mode s)), (s_mode s =? 1); cbn; apply orb_true_r.
 Qed.
 
 (* ---- the clauses of the statement, about the writers themselves ---- *)
@@ -610,25 +621,30 @@ Proof.
 Qed.
 
 Corollary link_full_proved (t : gtrace V) :
-  (c05_update_inherits_isnew = false /\ c05_refused_plog_marks_stored = false /\ c05_failed_plog_marks_stored = false)
+  (c05_update_inherits_isnew = false /\ c05_refused_plog_marks_stored = false /\ c05_failed_plog_marks_stored = false
+   /\ c05_reapply_wlog_raises_level = false)
   \/ gclean t = true ->
   gagrees stamp veqb t = true -> gsatisfies stamp veqb t = true.
-Proof. intros [[E [E1 E2]] | C]; apply link_proved; [apply gclean_off; assumption | exact C]. Qed.
+Proof. intros [[E [E1 [E2 E3]]] | C]; apply link_proved; [apply gclean_off; assumption | exact C]. Qed.
 
 Corollary link_but_failed_proved (t : gtrace V) :
-  c05_update_inherits_isnew = false -> c05_refused_plog_marks_stored = false ->
+  c05_update_inherits_isnew = false -> c05_refused_plog_marks_stored = false -> c05_reapply_wlog_raises_level = false ->
   c05_failed_plog_marks_stored = false \/ no_failed_reapply t = true ->
   gagrees stamp veqb t = true -> gsatisfies stamp veqb t = true.
 Proof.
-  intros E E1 [E2 | NF]; apply link_proved; [apply gclean_off | apply gclean_but_failed]; assumption.
+  intros E E1 E3 [E2 | NF]; apply link_proved; [apply gclean_off | apply gclean_but_failed]; assumption.
 Qed.
 
 (* GetEventReapplier refuses an event object that is not marked as stored: nothing is written *)
 Lemma unstored_event_not_reappliable_proved trust now (st : store) (s : step) :
-  (s_mode s =? 0) = false -> (s_mode s =? 3) = false -> is_reapply (s_kind s) = true ->
+  (s_mode s =? 0) = false -> (s_mode s =? 3) = false -> window_mode (s_mode s) = false -> is_reapply (s_kind s) = true ->
   reapplier_accepts (s_mode s) = false ->
   run_step trust now st s = Some (st, RPanic, []).
-Proof. intros M0 M3 K A. unfold run_step. rewrite M0, M3, K, A. reflexivity. Qed.
+Proof. intros M0 M3 W K A. unfold run_step. rewrite M0, W, M3, K, A. reflexivity. Qed.
+
+(* the trust level a step runs at is the configured one, also while re-appliers are at work *)
+Lemma eff_trust_id : c05_reapply_wlog_raises_level = false -> forall trust m, eff_trust trust m = trust.
+Proof. intros E trust m. unfold eff_trust. rewrite E, andb_false_r. reflexivity. Qed.
 
 Lemma refused_event_not_reappliable_proved :
   c05_refused_plog_marks_stored = false ->
@@ -636,7 +652,7 @@ Lemma refused_event_not_reappliable_proved :
   run_step trust now st s = Some (st, RPanic, []).
 Proof.
   intros E trust now st s M K. apply unstored_event_not_reappliable_proved; rewrite ?M;
-    [reflexivity | reflexivity | exact K | unfold reapplier_accepts; cbn; exact E].
+    [reflexivity | reflexivity | reflexivity | exact K | unfold reapplier_accepts; cbn; exact E].
 Qed.
 
 Lemma failed_event_not_reappliable_proved :
@@ -645,7 +661,7 @@ Lemma failed_event_not_reappliable_proved :
   run_step trust now st s = Some (st, RPanic, []).
 Proof.
   intros E trust now st s M K. apply unstored_event_not_reappliable_proved; rewrite ?M;
-    [reflexivity | reflexivity | exact K | unfold reapplier_accepts; cbn; exact E].
+    [reflexivity | reflexivity | reflexivity | exact K | unfold reapplier_accepts; cbn; exact E].
 Qed.
 
 End Engine.
@@ -682,5 +698,24 @@ Proof.
     | exists (put [] [1] [2] 7), (put (put [] [1] [2] 7) [1] [2] 8),
         (mkStep KReapplyRecs 2 false [mkSlot (mkItem [1] [2] 1 true false false 8) false (mkObs None None None) (mkObs None None None)] ROk []),
         [CBatch [([1], [2], 8)]];
+      repeat split; vm_compute; reflexivity ].
+Qed.
+
+(* Had the re-applier written its WLog entry through PutWlog under a raised SHARED trust level (seed c05-8), a
+   guarded append issued by another partition while that write is in flight would run at level 2 and replace
+   an occupied PLog offset at level 0. *)
+Lemma window_raises_level_refuted_proved :
+  c05_reapply_wlog_raises_level = true ->
+  exists (st st' : store N) (s : step N) cs,
+    s_mode s = 4 /\ s_kind s = KPlog /\
+    run_step 0 0%Z st s = Some (st', ROk, cs) /\
+    get 0%Z st [1] [2] = Some 7 /\ get 0%Z st' [1] [2] = Some 8.
+Proof.
+  intros H. unfold c05_reapply_wlog_raises_level in H.
+  first
+    [ discriminate H
+    | exists (put [] [1] [2] 7), (put (put [] [1] [2] 7) [1] [2] 8),
+        (mkStep KPlog 4 false [mkSlot (mkItem [1] [2] 0 true false false 8) false (mkObs None None None) (mkObs None None None)] ROk []),
+        [CPut [1] [2] 8];
       repeat split; vm_compute; reflexivity ].
 Qed.
